@@ -8,7 +8,9 @@ from . import oracle as O
 
 # register sizes and list lengths around natural implementation thresholds (machine words, byte counters, block sizes)
 BIG_NS = [31, 32, 33, 63, 64, 65, 66, 70, 127, 128, 129, 130]
-BIG_LS = [63, 64, 65, 255, 256, 257, 300, 1000]
+BIG_LS = [63, 64, 65, 255, 256, 257, 300, 1000, 1023, 1024, 1025, 2049, 4097]
+HUGE_LS = [65535, 65537, 70001]
+HUGE_NS = [255, 256, 257, 512, 513]
 
 
 def sparse_string(rng, N, w=None):
